@@ -29,6 +29,7 @@ Vecs == CASE FAMILY = "upd" -> UpdVecs [] FAMILY = "updvar" -> VarVecs [] FAMILY
           [] FAMILY = "open" -> OpenVecs [] FAMILY = "openrt" -> OpenRtVecs [] FAMILY = "notif" -> NotifVecs
           [] FAMILY = "comm" -> {[kind |-> "comm", sub |-> 16, u |-> x] : x \in ExtPool} \cup {[kind |-> "comm", sub |-> 8, u |-> x] : x \in StdPool}
                                  \cup {[kind |-> "comm", sub |-> 32, u |-> x] : x \in LargePool}
+          [] FAMILY = "updap" -> {[kind |-> "updap", asn4 |-> TRUE, var |-> Canon, u |-> x.u, wids |-> x.wids, nids |-> x.nids] : x \in AddPathVecs}
           [] FAMILY = "rr" -> RRVecs [] FAMILY = "ka" -> {[kind |-> "ka", u |-> [x |-> 0]]}
 
 Bytes(v) ==
@@ -37,6 +38,7 @@ Bytes(v) ==
      [] v.kind = "notif" -> EncNotification(v.u.code, v.u.sub, v.u.data)
      [] v.kind = "rr" -> EncRouteRefresh(v.u.typ, v.u.afi, v.u.res, v.u.safi)
      [] v.kind = "ka" -> EncKeepalive
+     [] v.kind = "updap" -> EncUpdateAddPath(v.u, TRUE, v.wids, v.nids)
      [] v.kind = "comm" ->     \* an UPDATE announcing one prefix with the base attributes and this one community
           LET a == EncAttrs(Base(TRUE), TRUE, FALSE) \o AttrTLV(v.sub, v.u.o, FALSE)
           IN Message(2, U16(0) \o U16(Len(a)) \o a \o EncPrefix(P6[6]))
@@ -52,6 +54,7 @@ RefWellFormed ==
      [] vec.kind = "rr" -> WfRouteRefresh(Bytes(vec))
      [] vec.kind = "ka" -> WfKeepalive(Bytes(vec))
      [] vec.kind = "comm" -> WfUpdate(Bytes(vec), TRUE)
+     [] vec.kind = "updap" -> WfUpdateAP(Bytes(vec), TRUE)
      [] OTHER -> TRUE
 Emit == PrintT("@W " \o ToJson([vec EXCEPT !.u = IF vec.kind = "cor" THEN [name |-> vec.u.name] ELSE vec.u] @@ [b |-> Bytes(vec)]))
 =============================================================================
